@@ -573,6 +573,9 @@ def run(ctx):
     ctx.attempt(trace_selector_rule, ctx)
     ctx.attempt(stress_parts_rule, ctx)
     ctx.attempt(history_reset_callers_rule, ctx)
+    ctx.attempt(degenerate_projector_rule, ctx)
+    ctx.attempt(degenerate_derivative_rule, ctx)
+    ctx.attempt(inverse_trig_domain_rule, ctx)
     projector_rule(ctx)
     mask_rule(ctx)
     history_rule(ctx)
@@ -686,3 +689,245 @@ def history_reset_callers_rule(ctx):
                 r.fail(f.qualname, f"reset-request:{norm_text(n)[:40]}", f.file, n.lineno, f"{f.cls.name + '.' if f.cls else ''}{f.name}", f"`{norm_text(n)}` asks Set_Iter to reset the internal variables: with the history solver the stored maximum of the driving energy is replaced by the instantaneous one, so a query after an unloading lowers the history and the damage heals")
             else:
                 r.ok(f"{f.qualname}: {norm_text(n)}")
+
+
+def degenerate_projector_rule(ctx):
+    """R17.12: 'including zero strain, hydrostatic, uniaxial and other states with repeated principal values ... the
+    spectral projectors agree with an independent eigen-decomposition': the 3-D closed-form eigen-decomposition is
+    interpreted in exact arithmetic on tensors Q diag(a, b, c) Q^T with a rational rotation Q and every pattern of
+    repeated eigenvalues (two equal largest, two equal smallest, three equal, zero), several Gauss points of different
+    patterns in ONE element.  The returned eigenvalues are (a, b, c) sorted; the returned matrices are symmetric
+    idempotents of trace one, mutually orthogonal, summing to the identity, and sum_i lambda_i M_i is the tensor: the
+    projectors on an orthonormal eigenbasis (an independent characterisation, no eigen-solver involved)."""
+    from ..femodel import Model, FeV
+    from ..alg import MQ
+
+    repo = ctx.repo
+    ci = repo.cls(PFM)
+    f = ci.methods["_Eigen_values_vectors_projectors"]
+    r = ctx.rule("R17.12", "3-D closed-form eigen-decomposition on exact degenerate states (rational rotation of diag(a, b, c), every repetition pattern, mixed patterns inside one element): eigenvalues sorted, M_i symmetric rank-one orthogonal idempotents with sum_i lambda_i M_i == tensor", min_instances=2)
+    Qm = [[Q(2, 3), Q(-2, 3), Q(1, 3)], [Q(2, 3), Q(1, 3), Q(-2, 3)], [Q(1, 3), Q(2, 3), Q(2, 3)]]
+    Id = [[Q(1) if i == j else Q(0) for j in range(3)] for i in range(3)]
+    s2 = MQ.sqrt(2)
+
+    def tensor(d, rot):
+        R = Qm if rot else Id
+        return [[sum((R[i][k] * d[k] * R[j][k] for k in range(3)), Q(0)) for j in range(3)] for i in range(3)]
+
+    def kelvin(T):
+        return [T[0][0], T[1][1], T[2][2], T[1][2] * s2, T[0][2] * s2, T[0][1] * s2]
+
+    batches = [
+        ("two equal largest / two equal smallest / three equal", [([-1, 2, 2], True), ([1, 1, 4], True), ([3, 3, 3], False)]),
+        ("uniaxial / zero / two equal smallest negative", [([5, 0, 0], True), ([0, 0, 0], False), ([-2, -2, 1], True)]),
+    ]
+    for label, pts in batches:
+        r.instance(fn=f.qualname)
+        M = Model(repo, max_steps=200_000_000)
+        nP = len(pts)
+        vecs = [kelvin(tensor([Q(x) for x in d], rot)) for d, rot in pts]
+        eps = FeV((1, nP, 6), [x for v in vecs for x in v])
+        mat = SimpleNamespace(dim=3, coef=s2)
+        obj = XObj(ci, {ci.mangle("__material"): mat, "dim": 3})
+        M.user_call_hook = lambda fn, args, kwargs: Sink() if getattr(fn, "name", "") == "Tic" else NotImplemented
+        try:
+            vals, list_m, list_M = M.I.call_function(f, [eps], self_obj=obj)
+        except XRaise as e:
+            r.fail(f.qualname, f"degenerate:{label}", f.file, f.lineno, "_Eigen_values_vectors_projectors", f"{label}: raises {e}")
+            continue
+        vals = XArray.from_nested(vals)
+        Ms = [XArray.from_nested(m) for m in list_M]
+        bad = None
+
+        def num(x):
+            x = exact_num(x)
+            return x
+
+        for p, (d, rot) in enumerate(pts):
+            T = tensor([Q(x) for x in d], rot)
+            want = sorted(Q(x) for x in d)
+            got = [num(vals[0, p, k]) for k in range(3)]
+            if any(not is_zero(MQ.of(g) - MQ.of(w)) for g, w in zip(got, want)):
+                bad = f"point {p} (eigenvalues {want}): returned eigenvalues {got}"
+                break
+            Mp = [[[num(Mi[0, p, i, j]) for j in range(3)] for i in range(3)] for Mi in Ms]
+            zero = lambda x: is_zero(MQ.of(x)) if not isinstance(x, MQ) else x.is_zero()
+            mm = lambda A, B: [[sum((MQ.of(A[i][k]) * MQ.of(B[k][j]) for k in range(3)), MQ.of(0)) for j in range(3)] for i in range(3)]
+            for a in range(3):
+                tr = sum((MQ.of(Mp[a][i][i]) for i in range(3)), MQ.of(0))
+                AA = mm(Mp[a], Mp[a])
+                if not zero(tr - MQ.of(1)):
+                    bad = f"point {p} (eigenvalues {want}): trace(M{a + 1}) = {tr}, a projector on one eigenvector has trace 1"
+                elif any(not zero(MQ.of(Mp[a][i][j]) - MQ.of(Mp[a][j][i])) for i in range(3) for j in range(3)):
+                    bad = f"point {p}: M{a + 1} is not symmetric"
+                elif any(not zero(AA[i][j] - MQ.of(Mp[a][i][j])) for i in range(3) for j in range(3)):
+                    bad = f"point {p} (eigenvalues {want}): M{a + 1} is not idempotent (M{a + 1}^2 != M{a + 1}): it is not a projector on an eigenvector"
+                for b in range(a + 1, 3):
+                    AB = mm(Mp[a], Mp[b])
+                    if bad is None and any(not zero(AB[i][j]) for i in range(3) for j in range(3)):
+                        bad = f"point {p} (eigenvalues {want}): M{a + 1} M{b + 1} != 0"
+                if bad:
+                    break
+            if bad:
+                break
+            for i in range(3):
+                for j in range(3):
+                    tot = sum((MQ.of(got[a]) * MQ.of(Mp[a][i][j]) for a in range(3)), MQ.of(0))
+                    one = sum((MQ.of(Mp[a][i][j]) for a in range(3)), MQ.of(0))
+                    if bad is None and not zero(tot - MQ.of(T[i][j])):
+                        bad = f"point {p} (eigenvalues {want}): sum_i lambda_i M_i differs from the tensor at ({i},{j})"
+                    if bad is None and not zero(one - MQ.of(Id[i][j])):
+                        bad = f"point {p}: the projectors do not sum to the identity"
+        if bad:
+            r.fail(f.qualname, f"degenerate:{label}", f.file, f.lineno, "_Eigen_values_vectors_projectors", f"one element, Gauss points {label}: {bad}: the positive / negative parts built from these projectors are wrong at that state")
+        else:
+            r.ok(f"{label}: eigenvalues and rank-one orthogonal projectors exact at every point")
+
+
+def exact_num(x):
+    from ..xeval import exact
+    from ..alg import MQ
+
+    x = exact(x)
+    if isinstance(x, Poly) and x.is_const():
+        x = x.const_value()
+    return x
+
+
+def degenerate_derivative_rule(ctx):
+    """R17.13: the spectral projector tensor projP returned for a 3-D tensor is the derivative of the positive part
+    eps -> eps^+ (Kelvin-Mandel 6x6): D[X] = sum_ab gamma_ab (n_a . X n_b) n_a (x) n_b with gamma_aa = H(lambda_a),
+    gamma_ab = (lambda_a^+ - lambda_b^+) / (lambda_a - lambda_b) and its limit H(lambda_a) for a repeated eigenvalue --
+    computed here from the known eigenvectors of Q diag(a, b, c) Q^T, and compared entry by entry with the interpreted
+    __Spectral_Decomposition on states with every repetition pattern (positive, negative and zero repeated values)."""
+    from ..femodel import Model, FeV
+    from ..alg import MQ
+
+    repo = ctx.repo
+    ci = repo.cls(PFM)
+    f = repo.lookup_method(ci, ci.mangle("__Spectral_Decomposition"))
+    r = ctx.rule("R17.13", "3-D projP == d(eps^+)/d(eps) in Kelvin-Mandel form on exact degenerate and generic-integer states (repeated positive / negative / zero eigenvalues), projP + projM == identity", min_instances=2)
+    Qm = [[Q(2, 3), Q(-2, 3), Q(1, 3)], [Q(2, 3), Q(1, 3), Q(-2, 3)], [Q(1, 3), Q(2, 3), Q(2, 3)]]
+    Id = [[Q(1) if i == j else Q(0) for j in range(3)] for i in range(3)]
+    s2 = MQ.sqrt(2)
+    pos = lambda x: x if x > 0 else Q(0)
+    H = lambda x: Q(1) if x > 0 else Q(0) if x < 0 else Q(1, 2)
+
+    def kelvin(T):
+        return [MQ.of(T[0][0]), MQ.of(T[1][1]), MQ.of(T[2][2]), MQ.of(T[1][2]) * s2, MQ.of(T[0][2]) * s2, MQ.of(T[0][1]) * s2]
+
+    def basis(J):
+        T = [[MQ.of(0)] * 3 for _ in range(3)]
+        if J < 3:
+            T[J][J] = MQ.of(1)
+        else:
+            i, j = [(1, 2), (0, 2), (0, 1)][J - 3]
+            T[i][j] = T[j][i] = MQ.of(1) / s2
+        return T
+
+    def reference(d, R):
+        n = [[R[i][a] for i in range(3)] for a in range(3)]  # eigenvectors: columns of R
+        cols = []
+        for J in range(6):
+            X = basis(J)
+            Y = [[MQ.of(0)] * 3 for _ in range(3)]
+            for a in range(3):
+                for b in range(3):
+                    gam = H(d[a]) if d[a] == d[b] else (pos(d[a]) - pos(d[b])) / (d[a] - d[b])
+                    if gam == 0:
+                        continue
+                    c = sum((MQ.of(n[a][i]) * X[i][j] * MQ.of(n[b][j]) for i in range(3) for j in range(3)), MQ.of(0)) * gam
+                    for i in range(3):
+                        for j in range(3):
+                            Y[i][j] = Y[i][j] + c * (n[a][i] * n[b][j])
+            cols.append(kelvin(Y))
+        return [[cols[J][I] for J in range(6)] for I in range(6)]
+
+    batches = [
+        ("repeated positive largest / repeated positive smallest / three equal positive", [([-1, 2, 2], True), ([1, 1, 4], True), ([3, 3, 3], False)]),
+        ("uniaxial tension / uniaxial compression with equal positive laterals / repeated negative", [([5, 0, 0], True), ([-10, 3, 3], True), ([-2, -2, 1], True)]),
+    ]
+    for label, pts in batches:
+        r.instance(fn=f.qualname)
+        M = Model(repo, max_steps=400_000_000)
+        nP = len(pts)
+        vecs = []
+        for d, rot in pts:
+            R = Qm if rot else Id
+            T = [[sum((R[i][k] * Q(d[k]) * R[j][k] for k in range(3)), Q(0)) for j in range(3)] for i in range(3)]
+            vecs.append(kelvin(T))
+        eps = FeV((1, nP, 6), [x.rational() if x.is_rational() else x for v in vecs for x in v])
+        mat = SimpleNamespace(dim=3, coef=s2)
+        obj = XObj(ci, {ci.mangle("__material"): mat, "dim": 3})
+        M.user_call_hook = lambda fn, args, kwargs: Sink() if getattr(fn, "name", "") == "Tic" else NotImplemented
+        try:
+            projP, projM = M.I.call_function(f, [eps], self_obj=obj)
+        except XRaise as e:
+            r.fail(f.qualname, f"derivative:{label}", f.file, f.lineno, "__Spectral_Decomposition", f"{label}: raises {e}")
+            continue
+        projP, projM = XArray.from_nested(projP), XArray.from_nested(projM)
+        bad = None
+        for p, (d, rot) in enumerate(pts):
+            ref = reference([Q(x) for x in d], Qm if rot else Id)
+            for I in range(6):
+                for J in range(6):
+                    g = MQ.of(exact_num(projP[0, p, I, J]))
+                    if bad is None and not (g - ref[I][J]).is_zero():
+                        bad = f"point {p} (eigenvalues {sorted(d)}): projP[{I}][{J}] = {g}, the derivative of the positive part is {ref[I][J]}"
+                    s = g + MQ.of(exact_num(projM[0, p, I, J]))
+                    if bad is None and not (s - MQ.of(1 if I == J else 0)).is_zero():
+                        bad = f"point {p}: projP + projM is not the identity at ({I},{J})"
+        if bad:
+            r.fail(f.qualname, f"derivative:{label}", f.file, f.lineno, "__Spectral_Decomposition", f"one element, Gauss points {label}: {bad}")
+        else:
+            r.ok(f"{label}: projP == d eps^+ / d eps at every point")
+
+
+def inverse_trig_domain_rule(ctx):
+    """R17.14: 'the positive and negative parts are finite': an inverse cosine / sine of a COMPUTED ratio (mathematically in
+    [-1, 1], pushed outside by round-off exactly at the degenerate states the property names) returns NaN; in the
+    phase-field model every argument of np.arccos / np.arcsin is clipped to [-1, 1] on every path to the call (the
+    argument is an np.clip(...) expression, or a variable whose last write before the call is np.clip(..., out=var) /
+    var = np.clip(var, ...))."""
+    repo = ctx.repo
+    r = ctx.rule("R17.14", "phase-field model: the argument of every np.arccos / np.arcsin is clipped to [-1, 1] immediately before the call (round-off at repeated eigenvalues cannot produce NaN)", min_instances=1)
+    mod = repo.module("EasyFEA.Models._phasefield")
+    for f in sorted(repo.all_functions(), key=lambda f: f.qualname):
+        if f.module is not mod:
+            continue
+        body_stmts = list(ast.walk(f.node))
+        for n in body_stmts:
+            if not (isinstance(n, ast.Call) and (dotted(n.func) or "").split(".")[-1] in ("arccos", "arcsin") and n.args):
+                continue
+            r.instance(fn=f.qualname)
+            a = n.args[0]
+
+            def is_clip(e, name=None):
+                if not (isinstance(e, ast.Call) and (dotted(e.func) or "").split(".")[-1] == "clip" and len(e.args) >= 3):
+                    return False
+                lo, hi = e.args[1], e.args[2]
+                val = lambda c: (-c.operand.value if isinstance(c, ast.UnaryOp) and isinstance(c.op, ast.USub) and isinstance(c.operand, ast.Constant) else c.value if isinstance(c, ast.Constant) else None)
+                return val(lo) is not None and val(hi) is not None and val(lo) >= -1 and val(hi) <= 1
+
+            ok = is_clip(a)
+            if not ok and isinstance(a, ast.Name):
+                # last write to the variable before the call, in source order, within the same function
+                writes = []
+                for st in body_stmts:
+                    if getattr(st, "lineno", 10**9) >= n.lineno:
+                        continue
+                    if isinstance(st, (ast.Assign, ast.AugAssign)):
+                        tg = st.targets if isinstance(st, ast.Assign) else [st.target]
+                        if any(isinstance(x, ast.Name) and x.id == a.id for t in tg for x in ast.walk(t) if isinstance(getattr(x, "ctx", None), ast.Store) or x is t):
+                            writes.append((st.lineno, "clip" if isinstance(st, ast.Assign) and is_clip(st.value) else "other"))
+                        elif any(isinstance(t, ast.Subscript) and isinstance(t.value, ast.Name) and t.value.id == a.id for t in tg):
+                            writes.append((st.lineno, "other"))
+                    if isinstance(st, ast.Call):
+                        outs = [k.value for k in st.keywords if k.arg == "out"]
+                        if any(isinstance(o, ast.Name) and o.id == a.id for o in outs):
+                            writes.append((st.lineno, "clip" if is_clip(st) else "other"))
+                ok = bool(writes) and sorted(writes)[-1][1] == "clip"
+            if ok:
+                r.ok(f"{f.qualname}: {norm_text(n)[:50]} argument clipped")
+            else:
+                r.fail(f.qualname, f"unclipped:{norm_text(n)[:40]}", f.file, n.lineno, f"{(f.cls.name + '.') if f.cls else ''}{f.name}", f"`{norm_text(n)[:60]}`: the argument is a computed ratio that equals +-1 at repeated eigenvalues and is not clipped to [-1, 1] before the call: round-off gives NaN for uniaxial and other degenerate states")
